@@ -214,20 +214,26 @@ def set_meta(rnd, mod, spec, depth):
     mod.project = emb
     emb.metamodule = mod
     n = rnd.choice([0, 1, 2, 3, 5, 27, 89, 95, 96, 96, rnd.randrange(97)]) if FORCE_UDC is None else FORCE_UDC
-    targets = [(i, m) for i, m in enumerate(emb.modules) if m is not None and i > 0 and len(type(m).controllers) > 0
-               and m.mtype not in ("MetaModule",)]
+    # (a nested MetaModule is a target too: chains user-defined -> user-defined -> controller)
+    targets = [(i, m) for i, m in enumerate(emb.modules) if m is not None and i > 0 and len(type(m).controllers) > 0]
     for i in range(96):
         if i < n and targets and rnd.random() < 0.8:
             mi, tm = rnd.choice(targets)
             nspec = len(spec[tm.mtype]["ctls"])
             ranged = [k for k, c in enumerate(spec[tm.mtype]["ctls"]) if c["kind"] == "range" and not (tm.mtype == "SpectraVoice" and c["name"].startswith("h"))]
             mod.mappings.values[i].module = mi
+            if tm.mtype == "MetaModule":       # its five own controllers and the user-defined ones it exposes
+                nspec = 5 + int(tm.user_defined_controllers)
+                ranged = []
             mod.mappings.values[i].controller = rnd.choice(ranged) if (i == n - 1 and ranged) else rnd.randrange(nspec)
         elif rnd.random() < 0.05:
             mod.mappings.values[i].module = rnd.choice([0, 200])
             mod.mappings.values[i].controller = rnd.randrange(50)
     mod.user_defined_controllers = n
-    mod.update_user_defined_controllers()
+    try:
+        mod.update_user_defined_controllers()
+    except Exception:           # (a library under test may fail here; the generated object is still saved and judged)
+        pass
     for i in range(96):
         if rnd.random() < (0.5 if i < n else 0.03):
             mod.user_defined[i].label = rnd.choice(["cut", "Réso", "", "w" * 40, "x y"])
@@ -284,6 +290,65 @@ def set_meta(rnd, mod, spec, depth):
             mm = mod.controller_midi_maps["user_defined_%d" % (i + 1)]
             mm.message_type = rnd.choice(list(MidiMessageType))
             mm.message_parameter = rnd.randrange(65536)
+
+
+def chain_meta(rnd, spec, width=None):
+    """A MetaModule whose user-defined controllers are chained through NESTED MetaModules (depth 2) onto controllers of
+    different kinds - boolean, enumeration, zero-based and offset ranges - at the same slot numbers of the nested ones."""
+    import rv.api as api
+    cl = classes()
+    simple = [k for k in sorted(cl) if k not in ("MetaModule", "Sampler", "SpectraVoice", "Output")]
+    outer = api.m.MetaModule()
+    emb = api.Project()
+    outer.project = emb
+    emb.metamodule = outer
+    width = width or rnd.randrange(2, 5)
+    kinds = ["bool", "enum", "range", "range"]
+    rnd.shuffle(kinds)
+    for j in range(width):
+        inner = api.m.MetaModule()
+        ie = api.Project()
+        inner.project = ie
+        ie.metamodule = inner
+        want = kinds[j % len(kinds)]
+        for _ in range(40):
+            t = rnd.choice(simple)
+            cands = [k for k, c in enumerate(spec[t]["ctls"]) if c["kind"] == want]
+            if cands:
+                break
+        tm = ie.new_module(cl[t])
+        ci = rnd.choice(cands) if cands else 0
+        inner.mappings.values[0].module = tm.index
+        inner.mappings.values[0].controller = ci
+        inner.user_defined_controllers = 1
+        try:
+            inner.update_user_defined_controllers()
+        except Exception:
+            pass
+        emb.attach_module(inner)
+        outer.mappings.values[j].module = inner.index
+        outer.mappings.values[j].controller = 5              # the nested module's first user-defined controller
+    outer.user_defined_controllers = width
+    try:
+        outer.update_user_defined_controllers()
+    except Exception:
+        pass
+    for j in range(width):                                    # values stored on the outer controllers (not pushed down)
+        inner = emb.modules[j + 1]
+        tm = inner.project.modules[1]
+        c = spec[tm.mtype]["ctls"][inner.mappings.values[0].controller]
+        name = "user_defined_%d" % (j + 1)
+        try:
+            if c["kind"] == "range":
+                outer.set_raw(name, rnd.choice([300, 2, c["max"] - c["min"], (c["max"] - c["min"]) // 2]) if c["max"] - c["min"] >= 300 else rnd.randrange(c["max"] - c["min"] + 1))
+            elif c["kind"] == "enum":
+                outer.set_raw(name, rnd.choice([v for _, v in c["members"]]))
+            elif c["kind"] == "bool":
+                outer.set_raw(name, rnd.choice([0, 1]))
+        except Exception:
+            pass
+    set_common(rnd, outer, False)
+    return outer
 
 
 def rand_module(rnd, cls, spec, depth=1, in_project=True, mode="random"):
